@@ -7,7 +7,7 @@ TRUSTED_BASE = [
     "Coq 8.16.1 kernel (coqc; coqchk in the thorough tier)",
     "Print Assumptions of every theorem in coq/Properties/C18.v: closed under the global context",
     "hand-written model coq/Model/Channels.v (HttpDemux::select, prepare_speedtest with u32::from_str semantics, the download and upload countdowns); the reverse-proxy relay itself is the DuplexPipe of C02",
-    "translator tools/gen_tables.py -> Generated/ChannelFacts.v (select precedence and each test, speedtest constants and handlers' shape, ping answer, reverse-proxy destination = settings.server_address reached through connect_to_peer which has no policy check, no handler mentions the authenticator)",
+    "translator tools/gen_tables.py -> Generated/ChannelFacts.v (select precedence and each test, speedtest constants and handlers' shape, ping answer, reverse-proxy destination = settings.server_address reached through connect_to_peer which has no policy check, the wait for the origin's response head reads the origin first and keeps a failed body write for later, no handler mentions the authenticator)",
     "hand-written model coq/Model/Http1Download.v of the response side of Http1Codec (one-place channel, message in flight kept in the codec, partial writes, dropped listen futures, orderly close), pinned by fact HTTP1_MESSAGE_IN_FLIGHT_KEPT and run against the real codec over a scripted transport (engine c18_dl: the model's and the codec's offers, byte counts after every step and final bytes must be equal)",
     "extraction + driver.ml, cross-checked against vm_compute; harness door verif::session on all four channels (HTTP/1.1 bytes / real h2 client), origin canary on loopback",
 ]
@@ -22,6 +22,7 @@ RULE = ("channels: ping host, speedtest host, reverse-proxy host, tunnel host wi
         "downloads that take longer than the handler timeout (slow reader, 100-200 ms timeout); reverse proxy with loopback origin x private connections allowed/refused, path mask on the tunnel host with/without Upgrade; slow-reading client; "
         "reverse proxy against a scripted origin (HTTP/1.1 through the door and the TLS listener, HTTP/3 through the QUIC listener): requests with a body of 5 .. 300000 bytes that the origin "
         "reads entirely, half or not at all before it answers; response heads of 60 .. 8000 bytes and 1 .. 100 fields written in one piece or cut at chosen and random offsets; "
+        "an origin that answers 413 after the request head and closes with the 48 MiB body unread while the client is still sending (8 exchanges on fresh connections per case, door and TLS listener); "
         "HTTP/1.1 response side on its own: scripts of 3 .. 16 steps (offers of 1 .. 300 bytes, runs of the listen loop with room for 0 .. 400 bytes, dropped listen futures, orderly end); "
         "non-trivial = every case; distinct = distinct request")
 
@@ -202,15 +203,15 @@ def gen_rp_cases(rng, thorough):
     one piece or cut into segments."""
     cases = []
 
-    def add(front, name, method=6, path="/x", req_hs=(), req_body=(0, 0, 0), wants=0, pause=80, cuts=(), status=200, reason="OK", fields=(), resp_len=2):
+    def add(front, name, method=6, path="/x", req_hs=(), req_body=(0, 0, 0), wants=0, pause=80, cuts=(), status=200, reason="OK", fields=(), resp_len=2, down=0):
         fields = [("Content-Length", str(resp_len))] + list(fields)
         head = response_head(status, reason, fields)
         resp_seed = rng.below(256)
-        li = line("c18_rp", [[front, 0], [method], list(path.encode()), flat(req_hs), list(req_body), [wants, pause] + list(cuts), list(head), [resp_len, resp_seed]])
+        li = line("c18_rp", [[front, 0, down] if down else [front, 0], [method], list(path.encode()), flat(req_hs), list(req_body), [wants, pause] + list(cuts), list(head), [resp_len, resp_seed]])
         cases.append(Case(li, None, kind="rp-origin:" + name + {0: "", 1: "-listener", 3: "-quic"}[front], nontrivial=True,
                           meta={"rp": True, "front": front, "method": {6: "GET", 7: "POST", 8: "PUT"}[method], "path": path, "req_hs": list(req_hs),
                                 "req_body": list(req_body), "wants": wants, "cuts": list(cuts), "status": status, "fields": fields,
-                                "head_len": len(head), "resp_len": resp_len}))
+                                "head_len": len(head), "resp_len": resp_len, "down": down}))
 
     def padded(total, extra=()):
         """fields that bring the response head to exactly `total` bytes"""
@@ -252,7 +253,27 @@ def gen_rp_cases(rng, thorough):
         for n in ((20, 32, 33, 64, 100) if not h3 else (32, 40)):
             add(front, "head-%d-fields" % n, fields=many(n), cuts=[] if n != 64 else [200])
         add(front, "status-404-with-fields", status=404, reason="Not Found", fields=many(40), resp_len=300)
+        # not claimed under the property's statement (which is silent about an origin that cannot be reached): nobody listens at the
+        # origin's address; the path is driven (a panic or a hang would show), the answer is not judged
+        add(front, "guard-origin-down", path="/rp/x", down=1)
+    # (4) an origin that refuses an upload: it reads the request head, waits, answers an error status and closes without having read
+    # the body, while the client is still sending a body larger than every buffer on the way (48 MiB). What the endpoint does at the
+    # moment the origin's answer and the failure of its own write are both there is decided per exchange: the exchange is repeated
+    # on fresh connections inside one case
+    for front in (0, 1):
+        fields = [("Content-Length", "12"), ("Connection", "close"), ("X-Refused-By", "origin")]
+        head = response_head(413, "Payload Too Large", fields)
+        size, rounds = 48 << 20, REFUSAL_ROUNDS
+        req_hs = [("content-length", str(size))]
+        li = line("c18_rp_refusal", [[front, rounds], [7], list(b"/rp/upload"), flat(req_hs), [size, rng.below(256)], [REFUSAL_WAIT_MS], list(head), [12, rng.below(256)]])
+        cases.append(Case(li, None, kind="rp-origin:upload-refused-and-closed-unread" + {0: "", 1: "-listener"}[front], nontrivial=True,
+                          meta={"rp_refusal": True, "front": front, "method": "POST", "path": "/rp/upload", "req_hs": req_hs, "size": size, "rounds": rounds,
+                                "wait": REFUSAL_WAIT_MS, "status": 413, "fields": fields, "head_len": len(head), "resp_len": 12}))
     return cases
+
+
+REFUSAL_ROUNDS = 8
+REFUSAL_WAIT_MS = 800
 
 
 def known_finding(case, kind, msg, known):
@@ -291,6 +312,10 @@ def judge_rp(case, impl):
     req_len = m["req_body"][0]
     resp = "response head of %d bytes with %d fields, written %s, and a body of %d bytes" % (
         m["head_len"], len(m["fields"]), ("in %d pieces cut at %s" % (len(m["cuts"]) + 1, m["cuts"])) if m["cuts"] else "in one piece", m["resp_len"])
+    if m.get("down"):
+        # nobody listens at the origin's address. The property is silent about what the client is told then (since 14e54a9: 502; before:
+        # nothing at all), so nothing is judged here beyond what every case is judged for (no panic, no hang): the path is driven, not claimed
+        return []
     if accepts != 1:
         return [("violation", "%s: %d connections reached the configured origin" % (what, accepts))]
     lines = origin_head.split(b"\r\n")
@@ -320,7 +345,63 @@ def judge_rp(case, impl):
     return []
 
 
+def judge_rp_refusal(case, impl):
+    """Direct oracle for the refused upload, from the property text: the request reaches the configured origin as an HTTP/1.1 request
+    carrying X-Original-Protocol, and the origin's response is relayed - in every one of the exchanges, each of which the origin
+    answered completely before it closed."""
+    m = case.meta
+    what = "%s, %s %s %s with Content-Length: %d, the client still sending" % (case.kind, FRONTS[m["front"]], m["method"], m["path"], m["size"])
+    if impl == "995":
+        return [("violation", "%s: the exchanges hung" % what)]
+    t = impl.split()
+    rounds = untok(t[0])[0]
+    accepts = untok(t[-1])[0]
+    if accepts != rounds:
+        return [("violation", "%s: %d exchanges on fresh connections, %d connections reached the configured origin" % (what, rounds, accepts))]
+    resp = "HTTP/1.1 %d with %d fields and a body of %d bytes" % (m["status"], len(m["fields"]), m["resp_len"])
+    bad, first = [], None
+    for r in range(rounds):
+        st, fl, bd, oh, og = t[1 + 5 * r:6 + 5 * r]
+        status = untok(st)[0]
+        got_fields = unflat(untok(fl))
+        body_len, body_ok = untok(bd)
+        origin_head = bytes(untok(oh))
+        answered, written = untok(og)
+        lines = origin_head.split(b"\r\n")
+        hs = [l.lower() for l in lines[1:] if l]
+        if lines[0] != ("%s %s HTTP/1.1" % (m["method"], m["path"])).encode() or b"x-original-protocol: http1" not in hs:
+            return [("violation", "%s: exchange %d: the origin received %r: not the HTTP/1.1 request carrying X-Original-Protocol" % (what, r + 1, origin_head[:160]))]
+        if not answered:
+            # the origin could not write its answer: nothing to relay, nothing to judge
+            return [("violation", "%s: exchange %d: the origin's connection failed under it before it had written its answer; the client received status %d"
+                                  % (what, r + 1, status))]
+        have = [(n.lower(), v.strip(b" \t")) for n, v in got_fields]
+        missing = [n for n, v in m["fields"] if (n.lower().encode(), v.encode()) not in have]
+        why = None
+        if status != m["status"]:
+            why = "status %d" % status if status else "no response at all"
+        elif missing:
+            why = "status %d without the origin's field %s" % (status, missing[0])
+        elif body_len != m["resp_len"] or not body_ok:
+            why = "status %d and %d body bytes%s" % (status, body_len, "" if body_ok else " (not the bytes sent)")
+        if why:
+            bad.append(r + 1)
+            first = first or "in exchange %d the client received %s (it had written %d bytes of its body by then)" % (r + 1, why, written)
+    if bad:
+        return [("violation", "%s: the origin reads the request head, waits %d ms, writes %s in one piece and closes without reading the body; "
+                              "it wrote its answer completely in all %d exchanges, the client received it in %d of them: %s"
+                              % (what, m["wait"], resp, rounds, rounds - len(bad), first))]
+    return []
+
+
 def judge(case, impl, model, spec, ctx):
+    if case.meta and case.meta.get("rp_refusal"):
+        if impl == "999":
+            return [("violation", "the reverse proxy panicked on %s" % case.kind)]
+        if impl == "996":
+            ctx.setdefault("skipped_env", []).append(case.kind)
+            return []
+        return judge_rp_refusal(case, impl)
     if case.meta and case.meta.get("wire"):
         return judge_wire(case, impl, model, spec)
     if case.meta and case.meta.get("dl"):
